@@ -7,6 +7,12 @@ CHECKS = {
  'C01': dict(tech='TLA+ ideal-crypto decision model (Groth16Protocol.tla) checked by TLC; every behaviour replayed on real Setup/Prove/Verify of 7 curves',
              text='TLC enumerates all circuit-shape x edit-sequence behaviours (<=2 edits) and checks the transcribed verifier step list against the property; each behaviour is replayed on the real Groth16 code of every curve and the real verdict compared with the specified one.',
              note='Ideal-cryptography rule for pairings/PoK; adversaries outside the edit alphabet and numeric correctness of pairings are outside the model (observed only via accept/reject).', ref='6 C01'),
+ 'C08': dict(tech='TLA+ step-machine model of both verifiers over input shapes (VerifierRobust.tla) + framing alphabet (Framing.tla), exhaustive in TLC; every shape and mutation replayed on real decoders/verifiers',
+             text='TLC explores every combination of variable-length-part lengths (0..4 / 0..10) against the key on the transcribed step lists (no out-of-range access, inconsistent shapes end in an error) and enumerates every framing mutation of the encodings; all are applied to real proofs/witnesses (direct, compressed and raw encodings) and the real decode/verify outcome must be error or acceptance, never a panic or crash.',
+             note='Content-level corruption inside a point encoding is sampled by bit flips; arbitrary byte strings are covered structurally, not by coverage-guided fuzzing. Allocation-bomb prefixes run under ulimit -v 8GB.', ref='6 C08'),
+ 'C11': dict(tech='TLA+ self-composition model of the compile pipeline (CompileDet.tla) over range-over-map sites extracted from the sources; recorded compilation histories validated by TLC (CompileDetTrace.tla)',
+             text='Every range-over-map site on the compile path is extracted from the current sources and model-checked for order sensitivity; every corpus circuit (13 feature families, both builders, large and small fields) is compiled repeatedly - sequentially, in parallel goroutines, interleaved with other circuits, in separate processes - and TLC validates that the recorded digest history is a behaviour of a deterministic compiler.',
+             note='Determinism is judged on the serialized bytes; a nondeterministic site not reached by the corpus is only seen by the extractor (reported as unreviewed).', ref='6 C11'),
  'C02': dict(tech='TLA+ ideal-crypto decision model (PlonkProtocol.tla) checked by TLC; every behaviour replayed on real Setup/Prove/Verify of 7 curves',
              text='As C01 for PLONK: TLC enumerates shape x edit sequences over every proof component, claimed value, option and public input; each behaviour is replayed on the real PLONK code of every curve.',
              note='Fiat-Shamir/KZG binding are ideal rules; soundness outside the edit alphabet is a cryptographic assumption.', ref='6 C02'),
